@@ -1,5 +1,6 @@
 """C13 — a wide-mask map behaves as a per-pixel set of bit positions."""
 import gen
+import translate_kernels
 
 PID = 'C13'
 RULE = ("wide-mask maps with requested maxbits in {1,7,8,9,15,16,17,20,24,32} receive histories of set_bits_pix / "
@@ -78,3 +79,12 @@ def must_reject(line):
     """C13: bit positions at or above the width must be rejected"""
     t = line.split()
     return t[0] in ('bits', 'sop', 'geom') and any(x.startswith('bits=') for x in t)
+
+
+def translate():
+    """regenerate Generated/Kernels.lean from /repo (obligations: Props/C13Kernels.lean)"""
+    return translate_kernels.translate()
+
+
+def kernel_failing_rows():
+    return translate_kernels.failing_rows(PID)
